@@ -603,7 +603,7 @@ fn gen_short_ring(kind: &Kind, rng: &mut Rng, budget: usize, out: &mut Vec<Case>
         let lg = *rng.pick(&[6u32, 7, 8, 10, 12]);
         if kind.family == Family::H10 && lg < 9 { continue; }
         let mask = (1usize << lg) - 1;
-        let tail = if rng.chance(1, 8) { la - 1 + 3 } else { la + 16 + rng.below(64) as usize };
+        let tail = if rng.chance(1, 8) { la - 1 } else { la + 16 + rng.below(64) as usize };
         let mirror = rng.chance(3, 4);
         let data = gen_ring(rng, mask, tail.max(if kind.family == Family::H10 { 160 } else { 0 }), mirror);
         let wraps = rng.range(0, 5) as usize;
@@ -643,7 +643,15 @@ fn gen_long(kind: &Kind, rng: &mut Rng, budget: usize, out: &mut Vec<Case>) {
         let ncuts = rng.below(6) as usize;
         let cuts: Vec<usize> = (0..ncuts).map(|_| s + rng.below(l as u64 + 1) as usize).collect();
         let m = *rng.pick(entry_modes(kind));
-        out.push(Case { data: DataSpec::Bytes(data), mask, pieces: split_pieces(rng, s, e, &cuts, m), gen: if ring { "long-ring" } else { "long-nomask" } });
+        let mut data = data;
+        let mut gen = if ring { "long-ring" } else { "long-nomask" };
+        if !ring && l > 0 && kind.family != Family::H10 && rng.chance(1, 16) {
+            // buffer too short for the last positions: BOTH procedures must panic
+            let need = e - 1 + kind.lookahead;
+            data.truncate(need - 1 - rng.below(6.min(l as u64)) as usize);
+            gen = "long-nomask-short-buffer";
+        }
+        out.push(Case { data: DataSpec::Bytes(data), mask, pieces: split_pieces(rng, s, e, &cuts, m), gen });
     }
 }
 
@@ -755,6 +763,7 @@ fn parse_line(line: &str) -> Option<(String, usize, DataSpec, Vec<Op>)> {
 pub fn run_cmd(args: &Args) {
     let thorough = args.tier == "thorough";
     let seed = args.seed;
+    std::panic::set_hook(Box::new(|_| {}));
     let mut corr = Corr::new(&args.out);
     let mut rep = Report::default();
 
